@@ -59,3 +59,11 @@ impl<'a, 'b, P> StateReq<'a, 'b, P> {
             .ok_or_else(StateError::required_missing::<Source, T>)
     }
 }
+
+#[cfg(mahf_verif)]
+impl<'a, 'b, P> StateReq<'a, 'b, P> {
+    /// Verification hook: the state whose requirements are checked (read-only).
+    pub fn verif_state(&self) -> &'a State<'b, P> {
+        self.0
+    }
+}
